@@ -9,6 +9,7 @@ from . import counters, eqsym
 from .flow import (own, facts_imply_nonempty, facts_imply_empty, Oblig, calls, events, deps_of, arg_deps, facts_on_path, has_fact, check_escapes, SELF, P)
 
 CYK = "pyformlang.cfg.cyk_table.CYKTable"
+GUARD = "_generates_all_terminals"
 EXPLANATION = (
     "Decides: on the path of contains / __contains__ the only input-keyed dictionary subscript (productions by body, "
     "keyed by the word's terminals) is dominated interprocedurally by the all-terminals-known guard, and on the "
@@ -37,7 +38,7 @@ def run(eng, rep, tier):
     n_bad = 0
     for ev, chain in subs:
         facts = facts_on_path(ev, chain)
-        ok = has_fact(facts, "_generates_all_terminals()", True)
+        ok = has_fact(facts, GUARD + "(", True)
         if not ok:
             n_bad += 1
         ob.decide("R6", "C08.1", ev.func, "guarded-lookup:" + ev.site.text[:40], ok,
@@ -50,15 +51,22 @@ def run(eng, rep, tier):
         ob.decide("R6", "C08.1", fi, "guarded-lookup", bool(gets), "terminal lookups use .get (no subscript exists)",
                   "no lookup of word terminals in the productions-by-body table was found", summ,
                   site=site_of(prog, fi, fi.node))
-    guard = prog.functions.get(CYK + "._generates_all_terminals")
-    if guard is None:
-        rep.error("R6", "C08.1", CYK, "anchor", "the guard _generates_all_terminals vanished")
+    # the guard is looked at where it is *called* (in the closure of CYKTable.__init__), with the arguments it really
+    # gets - whether it is a method of the table or a function of the module
+    init0 = prog.functions[CYK + ".__init__"]
+    si0 = interp.run_entry(init0, CYK)
+    gcalls = [ev for ev, _ in calls(si0, GUARD) if ev.sub is not None]
+    if not gcalls:
+        rep.error("R6", "C08.1", CYK, "anchor", "the guard %s is not called by CYKTable.__init__ any more" % GUARD)
     else:
-        sg = interp.run_entry(guard, CYK)
+        g = gcalls[0]
+        sg = g.sub
+        guard = sg.func
         consts = {ev.value.const for ev in sg.events if ev.kind == "ret" and ev.value is not None and ev.value.has_const()}
-        mem = [ev for ev in own(sg) if ev.kind == "member" and ev.recv is not None
+        mem = [ev for ev, _ in sg.walk() if ev.kind == "member" and ev.recv is not None
                and any(l[1] and l[1][-1] == "_productions_d" for l in ev.recv.alias)]
-        dep = ("self", ("_productions_d",)) in deps_of(sg.ret) and ("self", ("_word",)) in deps_of(sg.ret)
+        rdeps = deps_of(g.result) if g.result is not None else frozenset()
+        dep = ("self", ("_productions_d",)) in rdeps and ("self", ("_word",)) in rdeps
         ob.decide("R6", "C08.1", guard, "guard-tests-membership", bool(mem) and dep and True not in (consts - {True, False}),
                   "the guard tests every word terminal for membership in the productions-by-body table",
                   "the all-terminals guard does not test membership of the word's terminals", sg,
@@ -67,7 +75,7 @@ def run(eng, rep, tier):
     # on the guard's false branch the full-span cell is defined
     si = interp.run_entry(init, CYK)
     defined = any(ev.kind == "write" and ev.wkind == "subscript" and ev.recv is not None and
-                  ("self", ("_cyk_table",)) in ev.recv.alias and has_fact(ev.facts, "_generates_all_terminals()", False)
+                  ("self", ("_cyk_table",)) in ev.recv.alias and has_fact(ev.facts, GUARD + "(", False)
                   and ev.args and ("self", ("_word",)) in deps_of(ev.args[0]) for ev in own(si))
     ob.decide("R6", "C08.1", init, "full-span-cell-defined-when-unknown-terminal", defined,
               "when a terminal is unknown the full-span cell is set (to the empty set) before generate_word reads it",
